@@ -165,8 +165,8 @@ def graph_check(rows, edits):
 class Check(PropertyCheck):
     id = "C24"
     module = "Props.C24"
-    theorems = ["C24_edit_graph_acyclic", "C24_walk_terminates", "C24_refines_set", "C24_refines_set_fixed",
-                "C24_refines_set_shipped_partial", "C24_readd_after_delete", "C24_listing_nodup_fixed",
+    theorems = ["C24_edit_graph_acyclic", "C24_walk_terminates", "C24_refines_set_fixed_bounded",
+                "C24_refines_set_shipped_bounded_partial", "C24_readd_after_delete",
                 "C24_dup_listing_refuted", "C24_null_delete_refuted", "C24_same_pair_twice_refuted",
                 "C24_nonvacuous"]
     allowed_axioms = []
